@@ -43,6 +43,7 @@ PairLits(f) == FoldLeft(LAMBDA acc, q : acc \o [x \in 1..Len(f.pairs[q].lits) |-
 IllFormed(p) ==
      { <<"dupPacket", <<"pkt", j>>>> : j \in {j \in 1..Len(p.pkts) : \E h \in 1..(j-1) : p.pkts[h].name = p.pkts[j].name} }
 \cup { <<"dupMeta", <<"meta", j>>>> : j \in {j \in 1..Len(p.metas) : \E h \in 1..(j-1) : p.metas[h].name = p.metas[j].name} }
+\cup { <<"undeclaredMeta", <<"meta", j>>>> : j \in {j \in 1..Len(p.metas) : p.metas[j].ref # "" /\ ~\E h \in 1..(j-1) : p.metas[h].name = p.metas[j].ref} }
 \cup { <<"multiRoot", <<"pkt", j>>>> : j \in {j \in 1..Len(p.pkts) : p.pkts[j].root /\ \E h \in 1..(j-1) : p.pkts[h].root
                                                                      /\ ~\E g \in 1..(j-1) : p.pkts[g].name = p.pkts[j].name} }
 \cup { <<"unknownOption", <<"xopt", k>>>> : k \in {k \in 1..Len(p.xopts) : p.xopts[k][1] \notin KnownOptions} }
@@ -83,9 +84,11 @@ Step ==
   /\ pc <= Len(Decls(prog))
   /\ LET d == Decls(prog)[pc] IN
      CASE d[1] = "meta" ->
-            LET nm == prog.metas[d[2]].name IN
-            /\ diags' = diags \cup (IF nm \in metas THEN D("dupMeta", d) ELSE {})
-            /\ metas' = metas \cup {nm}
+            LET nm == prog.metas[d[2]].name ref == prog.metas[d[2]].ref IN
+            \* a reference entry takes over the attribute of an entry declared BEFORE it; without one it is dropped
+            /\ diags' = diags \cup (IF ref # "" /\ ref \notin metas THEN D("undeclaredMeta", d)
+                                    ELSE IF nm \in metas THEN D("dupMeta", d) ELSE {})
+            /\ metas' = IF ref # "" /\ ref \notin metas THEN metas ELSE metas \cup {nm}
             /\ UNCHANGED <<optsSeen, pkts, root, fnames, lenSeen>>
        [] d[1] = "xopt" ->
             LET nm == prog.xopts[d[2]][1] val == prog.xopts[d[2]][2] IN
@@ -173,6 +176,7 @@ MatchIdx(pk) == {i \in 1..Len(pk.fields) : pk.fields[i].k = "match"}
 Faults(p) ==
      { [class |-> "dupPacket", prog |-> [p EXCEPT !.pkts = Append(@, p.pkts[j])]] : j \in {j \in 1..Len(p.pkts) : ~p.pkts[j].root} }
 \cup { [class |-> "dupMeta", prog |-> [p EXCEPT !.metas = Append(@, p.metas[j])]] : j \in 1..Len(p.metas) }
+\cup { [class |-> "undeclaredMeta", prog |-> [p EXCEPT !.metas = Append(@, [MetaE("Ghost", "", "", 0, "none") EXCEPT !.ref = "Nowhere"])]] : x \in IF p.metas = <<>> THEN {} ELSE {1} }
 \cup { [class |-> "multiRoot", prog |-> [p EXCEPT !.pkts[j].root = TRUE]] : j \in {j \in 1..Len(p.pkts) : ~p.pkts[j].root} }
 \cup { [class |-> "unknownOption", prog |-> [p EXCEPT !.xopts = Append(@, x)]] : x \in {<<"Foo", "1">>, <<"littleEndian", "true">>} }
 \cup { [class |-> "illegalOptionValue", prog |-> [p EXCEPT !.xopts = Append(@, x)]] :
@@ -187,6 +191,9 @@ Faults(p) ==
 \cup UNION { { [class |-> "dupField", prog |-> AppendField(p, j, p.pkts[j].fields[i])] :
                   i \in {i \in 1..Len(p.pkts[j].fields) : p.pkts[j].fields[i].k \in {"int", "dyn", "obj", "meta", "match", "inl"}} }
              \cup { [class |-> "undeclaredPacket", prog |-> AppendField(p, j, [F0 EXCEPT !.k = "obj", !.name = "ghost", !.ty = "Nope"])] }
+             \* the NAME of the field is a declared packet, its TYPE is not
+             \cup { [class |-> "undeclaredPacket", prog |-> AppendField(p, j, [F0 EXCEPT !.k = "obj", !.name = nm, !.ty = "Nope"])] :
+                      nm \in {nm \in PktNames(p) : nm # p.pkts[j].name /\ nm \notin FieldNames(p.pkts[j])} }
              \cup { [class |-> "lenofOutsideRoot", prog |-> AppendField(AppendField(p, j, [F0 EXCEPT !.k = "len", !.name = "xl", !.ty = "u16", !.tgt = "xt"]), j, [F0 EXCEPT !.k = "obj", !.name = "xt", !.ty = "A"])] :
                       x \in IF p.pkts[j].root \/ ~(\E h \in 1..Len(p.pkts) : p.pkts[h].name = "A") THEN {} ELSE {1} }
              \cup { [class |-> "lenofTwice", prog |-> AppendField(AppendField(p, j, [F0 EXCEPT !.k = "len", !.name = "xl", !.ty = "u16", !.tgt = "xt"]), j, [F0 EXCEPT !.k = "obj", !.name = "xt", !.ty = "A"])] :
